@@ -4864,8 +4864,14 @@ fn process_relocation<'data, 'scope, A: Arch<Platform = Elf>, R: Relocation>(
             && flags.is_address()
         {
             if section_is_writable {
-                // Odd offsets mean bitmaps in RELR, so we need to fall back to RELA for them.
-                if resources.symbol_db.args.is_relr_enabled() && rel.offset().is_multiple_of(2) {
+                // Odd addresses mean bitmaps in RELR, so we need to fall back to RELA for them. We
+                // don't know the final address yet, but for a section that is at least 2-byte
+                // aligned the parity of the address is the parity of the offset. Sections with
+                // alignment 1 can start at an odd address, so we never pack their relocations.
+                if resources.symbol_db.args.is_relr_enabled()
+                    && section.sh_addralign(LittleEndian) >= 2
+                    && rel.offset().is_multiple_of(2)
+                {
                     common.allocate(part_id::RELR_DYN, elf::RELR_ENTRY_SIZE);
                 } else {
                     common.allocate(part_id::RELA_DYN_RELATIVE, elf::RELA_ENTRY_SIZE);
